@@ -161,7 +161,7 @@ func (t *Tuple) Lookup(name string) Component {
 
 // At returns the variable at index i.
 func (t *Tuple) At(i int) Component {
-	if i >= len(t.components) {
+	if i < 0 || i >= len(t.components) {
 		return errorf("index out of range")
 	}
 	return t.components[i]
